@@ -9,9 +9,9 @@ import (
 	"github.com/twpayne/go-geom/encoding/ewkb"
 	"github.com/twpayne/go-geom/encoding/ewkbhex"
 	"github.com/twpayne/go-geom/encoding/geojson"
-	"github.com/twpayne/go-geom/encoding/wkbhex"
 	"github.com/twpayne/go-geom/encoding/wkb"
 	"github.com/twpayne/go-geom/encoding/wkbcommon"
+	"github.com/twpayne/go-geom/encoding/wkbhex"
 	"github.com/twpayne/go-geom/encoding/wkt"
 
 	"verifharness/fw"
@@ -230,6 +230,10 @@ func codecNoise(c *fw.Ctx) {
 			// already produced for them into a later call
 			bad := geom.NewLineStringFlat(geom.Layout(5), []float64{1, 2, 3, 4, 5, 6, 7, 8, 9, 10})
 			badGC := geom.NewGeometryCollection().MustPush(geom.NewPointFlat(geom.XY, []float64{1, 2}), bad)
+			if r.Bool() {
+				// fails only after the first member has been written
+				badGC = geom.NewGeometryCollection().MustPush(geom.NewPointFlat(geom.XY, []float64{1, 2}), geom.NewLineString(geom.NoLayout))
+			}
 			ewkb.Marshal(bad, ewkb.NDR)
 			ewkb.Marshal(badGC, ewkb.XDR)
 			ewkbhex.Encode(badGC, ewkbhex.NDR)
@@ -252,4 +256,38 @@ func codecNoise(c *fw.Ctx) {
 		}
 	})
 	c.Count("calls_with_other_options_interleaved")
+}
+
+// heldSlot is a result object of an earlier case that is still referenced.
+type heldSlot struct {
+	desc string
+	snap func() string
+	want string
+}
+
+var heldSlots = map[string]*heldSlot{}
+
+// holdAndRecheck keeps a result object alive across cases: the object held
+// under this key since an earlier case is read again (it must still say what it
+// said when it was returned - later calls of the library must not have written
+// into it), then the new one takes its place.
+func holdAndRecheck(c *fw.Ctx, key, desc string, snap func() string) bool {
+	ok := true
+	if h := heldSlots[key]; h != nil {
+		var now string
+		if !c.Guard("panic", func() { now = h.snap() }) {
+			c.Count("held_results_rechecked")
+			if now != h.want {
+				c.Fail("result-invalidated", "a result returned earlier (%s) changed after later calls: it was %s, now reads %s", h.desc, clipStr(h.want, 300), clipStr(now, 300))
+				ok = false
+			}
+		}
+	}
+	var w string
+	if c.Guard("panic", func() { w = snap() }) {
+		delete(heldSlots, key)
+		return false
+	}
+	heldSlots[key] = &heldSlot{desc: desc, snap: snap, want: w}
+	return ok
 }
